@@ -9,9 +9,11 @@
    point (data for unknown / closed streams included), ReadBytes/Discard/Peek of any size, releases,
    pool reuse, closes from either side, the application holding and returning slots, elements injected
    for arbitrary stream ids.  A label that is not enabled is a no-op, so every list of labels is a
-   history.  [init f n qc]: f = true is the model of linkedBuffer.recycle() that also cleans the pinned
-   list (the code today), f = false the one that does not (the code before a234a74).  Which one is /repo
-   is decided by Gen/SwitchC09.v, regenerated from buffer.go on every run. *)
+   history - writes, Reserve and flushes AFTER a stream's Close included.  [init f g n qc]: f = true is the
+   model of linkedBuffer.recycle() that also cleans the pinned list (f = false: the code before a234a74);
+   g = true the model of write operations that refuse to allocate for a closed stream (g = false: no state
+   check in linkedBuffer).  Which variant /repo is, is decided by Gen/SwitchC09.v, regenerated from
+   buffer.go on every run; the headline theorems are stated for that variant. *)
 From Coq Require Import List ZArith Lia Bool Arith Permutation.
 From Shm Require Import Gen.Consts Gen.SwitchC09 Model.Accounting Proofs.AccountingProofs Model.AccountingConc Proofs.AccountingConcProofs.
 Import ListNotations.
@@ -20,13 +22,13 @@ Open Scope Z_scope.
 (* the location lists (free, held by the application, pinned lists of dead stream objects, the two
    queues, and per stream: send buffer, receive buffer, pinned list, pending data), concatenated, are a
    permutation of the slots: pairwise disjoint and covering *)
-Theorem C09_inv : forall f n qc h,
-  Permutation (all_slots (run (init f n qc) h)) (map Z.of_nat (seq 0 n)).
+Theorem C09_inv : forall f g n qc h,
+  Permutation (all_slots (run (init f g n qc) h)) (map Z.of_nat (seq 0 n)).
 Proof. exact inv_thm. Qed.
 Print Assumptions C09_inv.
 
-Theorem C09_inv_disjoint_cover : forall f n qc h,
-  let s := run (init f n qc) h in
+Theorem C09_inv_disjoint_cover : forall f g n qc h,
+  let s := run (init f g n qc) h in
   NoDup (all_slots s) /\ forall x, In x (all_slots s) <-> (0 <= x < Z.of_nat n).
 Proof. exact inv_nodup_cover. Qed.
 Print Assumptions C09_inv_disjoint_cover.
@@ -37,7 +39,7 @@ Print Assumptions C09_inv_disjoint_cover.
    happened before.  If the call disappears from recycle() the switch becomes false and this file no
    longer compiles. *)
 Theorem C09 : forall n qc h,
-  let s := run (init sw_recycle_cleans_pinned n qc) h in
+  let s := run (init sw_recycle_cleans_pinned sw_write_after_close_rejected n qc) h in
   (ext s = [] /\ q_srv s = [] /\ q_cli s = [] /\ forall k, alive (streams s k) = false) ->
   Permutation (free s) (map Z.of_nat (seq 0 n)) /\ length (free s) = n.
 Proof. exact fixed_thm. Qed.
@@ -45,12 +47,13 @@ Print Assumptions C09.
 
 (* for either variant of recycle(): nothing is lost in any history in which each Close finds an empty
    pinned list (ReleasePreviousRead before Close); with the switch on, the hypothesis is void *)
-Theorem C09_either_variant : forall f n qc h,
+Theorem C09_either_variant : forall f g n qc h,
   guarded (fun s l => match l with
                       | Close e sid => fx s = true \/ pinned (streams s (key e sid)) = []
+                      | Write e sid _ _ => gx s = true \/ alive (streams s (key e sid)) = true
                       | _ => True
-                      end) (init f n qc) h ->
-  let s := run (init f n qc) h in
+                      end) (init f g n qc) h ->
+  let s := run (init f g n qc) h in
   (ext s = [] /\ q_srv s = [] /\ q_cli s = [] /\ forall k, alive (streams s k) = false) ->
   Permutation (free s) (map Z.of_nat (seq 0 n)) /\ length (free s) = n.
 Proof. exact partial_thm. Qed.
@@ -63,8 +66,8 @@ Print Assumptions C09_either_variant.
    sendBuf.recycle, notification); moveTo and the reads are separate; stream OBJECTS (what owners and event
    loops hold pointers to) are distinct from ids (the server may accept a new object for an id whose old
    object is still being closed).  Any number of objects/owners; every list of labels is an interleaving. *)
-Theorem C09_inv_interleaved : forall f n qc h,
-  Permutation (call_slots (crun (cinit f n qc) h)) (map Z.of_nat (seq 0 n)).
+Theorem C09_inv_interleaved : forall f g n qc h,
+  Permutation (call_slots (crun (cinit f g n qc) h)) (map Z.of_nat (seq 0 n)).
 Proof. exact cinv_thm. Qed.
 Print Assumptions C09_inv_interleaved.
 
@@ -72,7 +75,7 @@ Print Assumptions C09_inv_interleaved.
    between elements, nothing is in flight and the application holds nothing, every slot is free -
    whichever way closes, late data, lookups and re-created streams interleaved before *)
 Theorem C09_interleaved : forall n qc h,
-  let s := crun (cinit sw_recycle_cleans_pinned n qc) h in
+  let s := crun (cinit sw_recycle_cleans_pinned sw_write_after_close_rejected n qc) h in
   (cext s = [] /\ cq_srv s = [] /\ cq_cli s = [] /\ loop_c s = LIdle /\ loop_s s = LIdle /\
    forall o, (o < nobjs s)%nat -> ocpc (objs s o) = 6%nat) ->
   Permutation (cfree s) (map Z.of_nat (seq 0 n)) /\ length (cfree s) = n.
@@ -90,18 +93,27 @@ Example C09_late_data_interleaving :
             CWrite 0%nat [1] false; CFlush 0%nat [50] 0%nat;  (* a second message is in flight *)
             CloseStep 1%nat; CloseStep 1%nat; CloseStep 1%nat;   (* CAS, table delete, pendingData.clear *)
             LoopAdd true] in
-  let s1 := crun (cinit true 4 8) h in
+  let s1 := crun (cinit true true 4 8) h in
   let s2 := crun s1 [LoopCheck true; PollOne true; LoopAdd true; LoopCheck true;
                      CloseStep 1%nat; CloseStep 1%nat; CloseStep 1%nat] in
   (pslots (opend (objs s1 1)), oclosed (objs s1 1), tbl s1 (key true 1)) = ([0], true, None) /\
   (length (cfree s2), nobjs s2, tbl s2 (key true 1), pslots (opend (objs s2 2)), ocpc (objs s2 1)) = (3%nat, 3%nat, Some 2%nat, [1], 6%nat).
 Proof. vm_compute. split; reflexivity. Qed.
 
+(* regression, about the code WITHOUT the state check in the write operations: a WriteBytes after the local
+   Close allocates a slice that nothing returns unless the user also flushes *)
+Example C09_write_after_close_leaked :
+  ~ (forall n qc h,
+     let s := run (init true false n qc) h in
+     (ext s = [] /\ q_srv s = [] /\ q_cli s = [] /\ forall k, alive (streams s k) = false) ->
+     Permutation (free s) (map Z.of_nat (seq 0 n)) /\ length (free s) = n).
+Proof. exact write_after_close_refuted. Qed.
+
 (* regression, about the OLD code only (recycle() without cleanPinnedList, before a234a74): the same
    statement was false — the pinned-at-Close history leaves slot 0 in the pinned list of a dead stream *)
 Example C09_old_code_leaked :
   ~ (forall n qc h,
-     let s := run (init false n qc) h in
+     let s := run (init false true n qc) h in
      (ext s = [] /\ q_srv s = [] /\ q_cli s = [] /\ forall k, alive (streams s k) = false) ->
      Permutation (free s) (map Z.of_nat (seq 0 n)) /\ length (free s) = n).
 Proof. exact full_refuted. Qed.
@@ -118,12 +130,14 @@ Example C09_example_run :
             Write false 1%nat [5] false; Flush false 1%nat [9] 0%nat;          (* stream half-closed: recycled *)
             Write false 1%nat [] true; Flush false 1%nat [30] 0%nat;           (* heap slice on a closed stream *)
             Close false 1%nat; Poll true; Close true 9%nat; Close true 11%nat; Poll false; Read true 1%nat RDiscard 30] in
-  let s := run (init false 6 2) h in
+  let s := run (init false false 6 2) h in
   (length (free s), ext s, leaked s, q_srv s, q_cli s, keys s) = (6%nat, [], [], [], [], [2; 3; 19; 23]%nat) /\
   map (fun k => alive (streams s k)) (keys s) = [false; false; false; false].
 Proof. vm_compute. split; reflexivity. Qed.
 
 (* the old-code witness leaks exactly the pinned slot; on the current model it does not *)
 Example C09_witness :
-  length (free (run (init true 4 8) witness_pinned)) = 4%nat /\ leaked (run (init false 4 8) witness_pinned) = [0].
+  length (free (run (init true true 4 8) witness_pinned)) = 4%nat /\ leaked (run (init false true 4 8) witness_pinned) = [0] /\
+  length (free (run (init true true 4 8) witness_write_after_close)) = 4%nat /\
+  sendb (streams (run (init true false 4 8) witness_write_after_close) 2) = [0].
 Proof. exact witness_fixed_ok. Qed.
